@@ -571,6 +571,8 @@ def check_C19(ctx):
     # wire level: every query of real nodes (searches, refresh, bootstrap and its retries) carries an 8-byte id with the prefix of its
     # activity, fresh within the activity, never twice towards the same address
     sc = lookup_scenarios(ctx, "timing", [3, 10], [0, 1, 5] if q else list(range(0, 12))) + lookup_scenarios(ctx, "hostile", [5], [1] if q else [1, 2, 3])
+    # more activities in one process than one block of action ids (2048): every prefix must differ from every prefix used before
+    sc += [("manysearch-s%d" % k, ["--scenario", "manysearch", "--seed", str(vlib.seed() % 1000 + k), "--n", "2100" if q else "4300"]) for k in ((0,) if q else (0, 1))]
     parts, _ = run_node_scenarios(ctx, sc, ["C19"], "wire")
     node_verdict(ctx, parts, "wire")
 
